@@ -38,17 +38,17 @@ CLAIMS = {
   ref="§6 C12"),
  "C13": dict(
   technique="runtime trace monitor: per-channel protocol automaton over delivered events plus a wire rule (no question for a stopped type/host until a new search starts), over generated API histories observed for hours of virtual time",
-  text="Generated histories of browse / browse again / browse_cache / stop / resolve_hostname (timeouts, letter-case variants) / stop_resolve_hostname / dropped receivers / shutdown with packet arrivals, calls clustered +-1 ms around retransmission instants, watched for 20 s or 2-3 virtual hours: T1 first event SearchStarted, T2 Found before Resolved, T3 exactly one final SearchStopped (SearchTimeout first on timeout), T4 no query for the stopped name afterwards, T5 no replay from the cache on re-browse, T6 no query for a cache-only browse (also no follow-up and no new-interface query, also when it starts on an instance cached beforehand but not resolved). PTR TTLs from 1 s.",
+  text="Generated histories of browse / browse again / browse_cache / stop / resolve_hostname (timeouts, letter-case variants) / stop_resolve_hostname / dropped receivers / shutdown with packet arrivals, calls clustered +-1 ms around retransmission instants, watched for 20 s or 2-3 virtual hours: T1 first event SearchStarted, T2 Found before Resolved, T3 exactly one final SearchStopped (SearchTimeout first on timeout), T4 no query for the stopped name afterwards, T5 no replay from the cache on re-browse, T6 no query for a cache-only browse (also no follow-up and no new-interface query, also when it starts on an instance cached beforehand but not resolved), T7 the hooked cache holds nothing of a stopped browse (PTR of the type, SRV/TXT of its instances, addresses of their hosts; host names with capitals in half of the cases). PTR TTLs from 1 s.",
   note="Services of browsed types live on hosts nobody resolves by name. The cache-only finding (T6) was repaired in /repo and is recorded as fixed in known_findings.json.",
   ref="§6 C13"),
  "C14": dict(
   technique="runtime monitor over enumerated command-queue positions and iteration splits of shutdown (simulated daemon behind the gate), calls injected mid-clean-up through a send hook, real-thread stress with resolved-receiver check; ThreadSanitizer and valgrind memcheck over the real-thread stress (thorough)",
-  text="Part A: shutdown at every position of every sequence of N<=1 (thorough N<=2) commands out of 20 kinds, released in one iteration or split over up to three, with 0-3 announced services and open searches (a third of the cases with four more open browses and searches whose receivers were dropped without a stop), plus sampled sequences to N=8: goodbyes once per announced service x family (X1), one final SearchStopped per open search (X2), Shutdown reported and every later call refused (X3), every reply receiver ever handed out resolved or closed once the daemon thread ended (X4), no panic (X5), second shutdown harmless (X6). Part A2: 1-4 calls issued on the daemon thread at the moment the k-th goodbye datagram of a shutdown goes out (send hook): accepted calls are answered or their channel closes. Part B: hundreds (thorough: 20000) of real daemons on private ports with 2-8 racing client threads.",
+  text="Part A: shutdown at every position of every sequence of N<=1 (thorough N<=2) commands out of 20 kinds, released in one iteration or split over up to three, with 0-3 announced services and open searches (a third of the cases with four more open browses and searches whose receivers were dropped without a stop), plus sampled sequences to N=8: goodbyes once per announced service x family (X1), one final SearchStopped per open search (X2), Shutdown reported and every later call of every kind, shutdown included, refused (X3), every reply receiver ever handed out resolved or closed once the daemon thread ended (X4), no panic (X5), second shutdown harmless (X6). Part A2: 1-4 calls issued on the daemon thread at the moment the k-th goodbye datagram of a shutdown goes out (send hook): accepted calls are answered or their channel closes. Part B: hundreds (thorough: 20000) of real daemons on private ports with 2-8 racing client threads.",
   note="Part B samples OS schedules. Thorough also runs Part B under ThreadSanitizer (nightly, -Zbuild-std, 16 x 120 daemons) and under valgrind memcheck (8 x 25 daemons); every report block is a violation of X5; if the instrumented build cannot be made the part is recorded as not run and decides nothing. One known finding (residual send/exit race) in known_findings.json.",
   ref="§6 C14"),
  "C15": dict(
   technique="runtime crash/liveness monitor: panic hook + daemon-thread exit guard + post-input liveness probes, under hostile API arguments and hostile datagram streams in a simulated world with conflict injection",
-  text="Thousands of cases of 1-3 hostile API calls (names from a hostile grammar incl. labels of 0-256 bytes, multi-byte boundaries, dots/backslashes, existing rename suffixes, totals around 255; extreme numbers), each followed by 6.3 virtual seconds in which every probe is answered with conflicting data, and hundreds of 20-80-datagram streams (random, mutated, grammar-hostile, and valid record chains with hostile labels that the daemon re-encodes in follow-ups and arbitrary / damaged TXT data; conflicting answers also spell the probed name as its escaped text, so that renaming runs for names with dots and backslashes; competing probe queries carrying our records minus one / plus one / changed / reversed arrive next to them); afterwards status must be Running, a fresh browse must start, and the browse opened before the input must still report a new instance.",
+  text="Thousands of cases of 1-3 hostile API calls (names from a hostile grammar incl. labels of 0-256 bytes, multi-byte boundaries, dots/backslashes, existing rename suffixes, totals around 255; hostile property lists with key=value of exactly 255 / 256 bytes; extreme numbers), each followed by 6.3 virtual seconds in which every probe is answered with conflicting data, and hundreds of 20-80-datagram streams (random, mutated, grammar-hostile, and valid record chains with hostile labels that the daemon re-encodes in follow-ups and arbitrary / damaged TXT data; conflicting answers also spell the probed name as its escaped text, so that renaming runs for names with dots and backslashes; competing probe queries carrying our records minus one / plus one / changed / reversed arrive next to them); afterwards status must be Running, a fresh browse must start, and the browse opened before the input must still report a new instance.",
   note="Checked profile (overflow checks and debug assertions on), so overflow-only panics are reported too.",
   ref="§6 C15"),
  "C19": dict(
@@ -78,7 +78,7 @@ CLAIMS = {
   ref="§6 C06"),
  "C08": dict(
   technique="runtime trace monitor over the simulated wire of one to three real daemons: injected conflicting responses and competing probes at every probe step, a label-level model of the renaming rule, pairwise antisymmetry runs, and a final-state check over a dense grid of start offsets",
-  text="Part R: conflicting SRV/TXT/A/AAAA responses (also in another letter case) at every millisecond of probing against hostile names (existing suffixes up to 2^32-1, 57-63-byte labels, dots, non-ASCII), then questions of every type for old and new names, then unregister/shutdown: lost name never used again, new name by the rule, probed three times, reported by NameChange, used in every later packet, encodable (N1, N4, N5). Part T: record-set pairs shown to each other after the 1st/2nd/3rd probe, sorted / reversed / other case: one-second wait then three probes (N2), opposite verdicts (N3), earlier data yields (N3b). Part D: two or three daemons on one link at offsets from a dense grid x jitters: exactly one keeps each original name, all announced, no shared names (N6).",
+  text="Part R: conflicting SRV/TXT/A/AAAA responses (also in another letter case) at every millisecond of probing against hostile names (existing suffixes up to 2^32-1, 57-63-byte labels, full-length labels whose counter gains a digit with the next rename, dots, non-ASCII), then questions of every type for old and new names, then unregister/shutdown: lost name never used again, new name by the rule, probed three times, reported by NameChange, used in every later packet, encodable (N1, N4, N5). Part T: record-set pairs shown to each other after the 1st/2nd/3rd probe, sorted / reversed / other case: one-second wait then three probes (N2), opposite verdicts (N3), earlier data yields (N3b). Part D: two or three daemons on one link at offsets from a dense grid x jitters: exactly one keeps each original name, all announced, no shared names (N6).",
   note="A counter at 2^32-1 may count on or start a fresh suffix. A conflict after the third probe is 250 ms old is not judged. Two known findings for instance names with a dot inside the label (known_findings.json).",
   ref="§6 C08"),
  "C09": dict(
@@ -98,12 +98,12 @@ CLAIMS = {
   ref="§6 C17"),
  "C18": dict(
   technique="runtime monitor: a selection model (call order, last match wins, later interfaces) compared at checkpoints with the daemon's interface table read from hooked state and with the links a fresh query leaves on; per-packet link/subnet rules on the simulated wire; event and cache-snapshot checks after interface loss",
-  text="Part S: 1-4 interfaces (v4/v6/both, two subnets on one interface, loopback) x 1-6 operations among enable/disable with every IfKind (All, IPv4, IPv6, Name, Addr present/absent/later, Loopback, IndexV4/V6, Predicate) and table edits (address added/removed/moved, interface down/up/added/removed), announcements injected on links that are on or off (I3). Part E: up to three selection calls, then explicit and automatic addresses: packets about a service only where it has an address in the link's subnet, carrying only that link's addresses; automatic services follow new addresses (I1, I2). Part P: instances (host names in mixed letter case in half of the cases) learned over two interfaces, then one disappears or is disabled wholly or by family: ServiceRemoved / re-resolved with what is left, nothing learned there reported again, nothing of it left in the cache; either interface may be the one that goes and in half of those cases the other follows (I4, I5).",
+  text="Part S: 1-4 interfaces (v4/v6/both, two subnets on one interface, secondary addresses inside one subnet, loopback) x 1-6 operations among enable/disable with every IfKind (All, IPv4, IPv6, Name, Addr present/absent/later, Loopback, IndexV4/V6, Predicate) and table edits (address added/removed/moved/renumbered inside its subnet, interface down/up/added/removed), announcements injected on links that are on or off (I3). Part E: up to three selection calls, then explicit and automatic addresses: packets about a service only where it has an address in the link's subnet, carrying only that link's addresses; automatic services follow new addresses (I1, I2). Part P: instances (host names in mixed letter case in half of the cases) learned over two interfaces, then one disappears or is disabled wholly or by family: ServiceRemoved / re-resolved with what is left, nothing learned there reported again, nothing of it left in the cache; either interface may be the one that goes and in half of those cases the other follows (I4, I5).",
   note="Nothing is judged for one interface-check interval after a table edit (the daemon cannot know yet).",
   ref="§6 C18"),
  "C20": dict(
   technique="runtime monitor of state size: the daemon's own metrics, a hooked full-state snapshot (map keys, records, timers, retransmissions) and paired 1x/4x traffic runs compared",
-  text="Traffic scenarios (40-400 packets: announcements of types nobody browses, SRV/TXT/address records without PTR, NSEC, instances that come and go, PTR-only instances that never resolve, endless re-announcements; TTLs to 120 s; with/without browse, hostname search (mixed-case names, asked twice, stopped in another spelling), own registration, accept_unsolicited): after stopping every search and waiting max TTL + 3 s nothing is cached and at most the interface-check timer is left (G1); at checkpoints the cache holds no more than the open searches relate to (G2); 4x the traffic ends with the same counts (G3).",
+  text="Traffic scenarios (40-400 packets: announcements of types nobody browses, SRV/TXT/address records without PTR, NSEC, instances that come and go, PTR-only instances that never resolve, endless re-announcements; TTLs to 120 s; with/without browse, hostname search (mixed-case names, asked twice, stopped in another spelling), own registration, accept_unsolicited): after stopping every search and waiting max TTL + 3 s nothing is cached and at most the interface-check timer is left (G1); at checkpoints the cache holds no more than the open searches relate to (G2); 4x the traffic ends with the same counts (G3); while registrations are still probing, 4x the unrelated questions or API calls leave the same number of timers and retransmissions (G4).",
   note="G2 allowance 2 x related + 8; G3 flags growth by more than 2x and more than 6. Four known findings (timer heap, PTR-less records, NSEC) in known_findings.json.",
   ref="§6 C20"),
 }
